@@ -22,7 +22,7 @@
      value if [k] was only created as a prefix, absent if never assigned or
      removed since (C10/ConfigSpec.v, 40 lines).  [obs] merges the three
      "nothing removed" result classes. *)
-From MptV Require Import Base.Mem C10.ConfigModel C10.ConfigSpec C10.PathProofs C10.PathAdd C10.TreeQuery
+From MptV Require Import Base.Mem C10.ConfigModel C10.ConfigSpec C10.PathProofs C10.PathAdd C10.PathBin C10.TreeQuery
   C10.TreeOps C10.TreeAssign C10.StoreRefine C10.ItemProofs C10.RootRefine C10.TreeView C10.ViewRefine C10.ApiRefine.
 
 (* ---- paths ---- *)
@@ -61,6 +61,20 @@ Theorem C10_path_rebuild :
   forall sep assign es, es <> [] -> hd [] es <> [] -> Forall (nosep sep) es ->
   exists p, build (path_init sep assign) es = Done p /\ pwf p /\ elems p = es /\ pwalk p = Done es.
 Proof. exact path_rebuild. Qed.
+
+(* The same in binary-length mode (MPT_PATHFLAG(SepBinary), [path_bin] = the step "bin"):
+   the elements may contain ANY byte, the separator too; lengths up to 255 (the 8-bit
+   length bytes; mpt_path_add refuses longer ones).  The result is the layout
+   e1 |e1| |e2| e2 |e2| |e3| ... en |en| 0 ([benc]) and the walk with mpt_path_next gives
+   back exactly the elements. *)
+Theorem C10_path_rebuild_binary :
+  forall sep assign es, hd [] es <> [] -> Forall short es ->
+  exists p, build (path_bin (path_init sep assign)) es = Done p /\
+    pbin p = true /\ poff p = 0 /\ plen p = length (pbase p) /\ pbase p = benc es /\ pwalk p = Done es.
+Proof. exact path_rebuild_bin. Qed.
+
+Theorem C10_path_bin_is_step : forall p, fst (pstep p PBin) = path_bin p.
+Proof. exact path_bin_step. Qed.
 
 (* one step of the walk, for every well-formed path *)
 Theorem C10_path_next_element :
@@ -172,6 +186,29 @@ Theorem C10_get_reads_spec :
   forall g h b s ty, R g h -> hpath b ->
     cfg_get g b s ty = Done (get_view false ty (squery h (elems b) (str_key s 46%N))).
 Proof. exact get_reads_spec. Qed.
+
+(* Asked for the value itself (TypeConvertablePtr: mpt_config_getp(conf, path,
+   MPT_ENUM(TypeConvertablePtr), &val), config::get(path, convertable *&), the form
+   examples/cxx/config.cpp uses) the accessors hand out the value most recently assigned
+   to exactly that key - whatever its length, whichever metatype holds it, for the
+   process-wide configuration, a sub-tree view and a private config::root - and report
+   MissingData for an absent or value-less element.  (As patched by
+   docs/C10_get_convertable.diff: the unpatched _convert_value left the request to the
+   value's own conversion, which no text metatype answers.) *)
+Theorem C10_getp_convertable_is_assigned_value :
+  forall g h b p, R g h -> hpath b -> pwf p ->
+    cfg_getp g b p GConv = Done (assigned_view (squery h (elems b) (elems p))).
+Proof. exact getp_conv_assigned. Qed.
+
+Theorem C10_get_convertable_is_assigned_value :
+  forall g h b s, R g h -> hpath b ->
+    cfg_get g b s GConv = Done (assigned_view (squery h (elems b) (str_key s 46%N))).
+Proof. exact get_conv_assigned. Qed.
+
+Theorem C10_root_get_convertable_is_assigned_value :
+  forall a h p, RI a h -> pwf p -> elems p <> [] ->
+    root_getp a p GConv = Done (assigned_view (slook h (elems p))).
+Proof. exact root_getp_conv_assigned. Qed.
 
 (* mpt_config_set(conf, path, val, sep, end): the string names the key made of its
    separator-delimited components up to the end character; config::del(path, sep, len):
@@ -298,7 +335,9 @@ Example C10_long_value_views :
   get_view false GStr (Exists (Some (bs (repeat 118 250)))) = GBadType /\
   get_view false GVec (Exists (Some (bs (repeat 118 250)))) = GText (bs (repeat 118 250)) /\
   get_view false GStr (Exists (Some (bs (repeat 118 249)))) = GText (bs (repeat 118 249)) /\
-  get_view true GStr (Exists (Some (bs (repeat 118 250)))) = GText (bs (repeat 118 250)).
+  get_view true GStr (Exists (Some (bs (repeat 118 250)))) = GText (bs (repeat 118 250)) /\
+  get_view false GConv (Exists (Some (bs (repeat 118 250)))) = GText (bs (repeat 118 250)) /\
+  get_view false GConv (Exists None) = GMissing.
 Proof. vm_compute. repeat split; reflexivity. Qed.
 
 Example C10_root_api_example :
@@ -312,6 +351,15 @@ Example C10_root_api_example :
      XOut (OutRc RcRemoved); XListing None; XVal (GText (bs [2]))].
 Proof. vm_compute. reflexivity. Qed.
 
+(* binary mode: an element that contains the separator, an empty one, a 255-byte one *)
+Example C10_rebuild_binary_example :
+  let es := [bs [97; 46; 98]; []; bs (repeat 120 255); bs [46]] in
+  match build (path_bin (path_init 46%N 0%N)) es with
+  | Done p => pwalk p = Done es /\ firstn 6 (pbase p) = bs [97; 46; 98; 3; 0; 0] /\ plen p = 3 + 2 + 2 + 257 + 3
+  | _ => False
+  end.
+Proof. vm_compute. repeat split; reflexivity. Qed.
+
 (* post data "arbc": element "a" added ('r' becomes the delimiter), "bc" dropped again *)
 Example C10_clear_example :
   let p := fst (pstep (fst (pstep (fst (pstep (path_init 46%N 0%N) (PPost (bs [97;114;98;99])))) (PAdd 1))) (PClear true)) in
@@ -322,6 +370,8 @@ Print Assumptions C10_path_elements.
 Print Assumptions C10_path_elements_string.
 Print Assumptions C10_string_key.
 Print Assumptions C10_path_rebuild.
+Print Assumptions C10_path_rebuild_binary.
+Print Assumptions C10_path_bin_is_step.
 Print Assumptions C10_root_refines_map.
 Print Assumptions C10_path_next_element.
 Print Assumptions C10_config_refines_map.
@@ -333,6 +383,9 @@ Print Assumptions C10_api_refines_map.
 Print Assumptions C10_api_step_refines.
 Print Assumptions C10_getp_reads_spec.
 Print Assumptions C10_get_reads_spec.
+Print Assumptions C10_getp_convertable_is_assigned_value.
+Print Assumptions C10_get_convertable_is_assigned_value.
+Print Assumptions C10_root_get_convertable_is_assigned_value.
 Print Assumptions C10_string_key_end.
 Print Assumptions C10_del_key.
 Print Assumptions C10_listing_reads_store.
